@@ -36,6 +36,7 @@ class Sched:
         self.change_points = set()
         self.real = {}
         self.errors = []
+        self.line_mode = False
 
     # -- managed threads -------------------------------------------------------------------------
     def name(self):
@@ -333,3 +334,39 @@ class CLock:
 
     def __exit__(self, *a):
         self.release()
+
+
+class LineYields:
+    """Source-free yield injection: with sys.monitoring (3.12+) every *line* of selected functions becomes a scheduling
+    point for managed threads.  Installed once per process; ``current`` designates the scheduler of the running schedule."""
+    TOOL = 3
+
+    def __init__(self):
+        self.current = None
+        self.installed = False
+        self.codes = []
+
+    def install(self, functions):
+        import sys
+        mon = getattr(sys, 'monitoring', None)
+        if mon is None:
+            return False
+        if not self.installed:
+            try:
+                mon.use_tool_id(self.TOOL, 'vf-line-yields')
+            except ValueError:
+                return False
+            mon.register_callback(self.TOOL, mon.events.LINE, self.on_line)
+            self.installed = True
+        for f in functions:
+            code = getattr(f, '__code__', None)
+            if code is not None and code not in self.codes:
+                mon.set_local_events(self.TOOL, code, mon.events.LINE)
+                self.codes.append(code)
+        return True
+
+    def on_line(self, code, line):
+        S = self.current
+        if S is not None and S.line_mode and S.name() is not None:
+            S.yield_('line %s:%d' % (code.co_name, line))
+        return None
